@@ -28,7 +28,7 @@ type Gen struct {
 }
 
 func New(r *rand.Rand) *Gen {
-	return &Gen{R: r, Keys: []string{"a", "b", "c"}, Funcs: []string{"twice", "ident", "wrap", "nostr", "pick"},
+	return &Gen{R: r, Keys: []string{"a", "b", "c"}, Funcs: []string{"twice", "ident", "wrap", "nostr", "pick", "sub"},
 		Aggrs: []string{"count", "first", "echo", "sum", "keep"}, FuncP: 4}
 }
 
